@@ -12,8 +12,9 @@ def sign_loop(ghost):
         "invariants": "count == verif_nonce_calls"}}}
 SIGN_LOOP = sign_loop("verif_nonce_calls, g_nf, g_ss, g_cs")
 RFC_LOOP = {"nonce_function_rfc6979_impl": {"for (i = 0;": {   # fragment kept short: a mutated loop condition must still find the loop (and then fail an obligation)
-    "assigns": "i, rng, __CPROVER_object_upto(nonce32, 32), verif_rfc6979_generate_calls",
-    "invariants": "(i == 0 || i - 1 <= counter) && verif_rfc6979_generate_calls == i"}}}
+    "assigns": "i, rng, __CPROVER_object_upto(nonce32, 32), verif_rfc6979_generate_calls, g_rg",
+    # counter+1 generate calls; after the LAST one (i == counter+1) nonce32 holds its 32 output bytes (ghost index g_nk2); earlier outputs may go anywhere
+    "invariants": "(i == 0 || i - 1 <= counter) && verif_rfc6979_generate_calls == i && ((i != 0 && i - 1 == counter) ==> (g_rg.len == 32 && nonce32[g_nk2] == g_rg.out_byte))"}}}
 UNITS = [
     U("C01.sig_sign", ["C01"], "harness/C01/sig_sign.c", "h_sig_sign", replace=MULINV + GEN, assumed=MULINV + GEN,
       functions=["secp256k1_ecdsa_sig_sign", "secp256k1_fe_normalize", "secp256k1_fe_get_b32", "secp256k1_scalar_set_b32",
